@@ -34,20 +34,15 @@ Proof. exact with_block_exn. Qed.
 Print Assumptions C17_block_propagates_exception.
 
 (* nested_blocks: every program - any nesting / sequence of the six managers, the helpers and
-   factor_iteration loops, any raising oracle, any chain selection and parameter values - restores
-   the state.  Side conditions: the dictionaries have unique keys (good), and AbsPDF.temp_params is
-   not entered while a parameter mask is active (safe; see C17_temp_params_under_mask_refuted). *)
+   factor_iteration loops, any raising oracle, any chain selection, parameter values and active
+   mask - restores the state.  Only side condition: the dictionaries have unique keys (good). *)
 Theorem C17_nested_blocks_restore :
-  forall e ev p m w s,
-    safe m p = true -> good s -> (m = false -> mask_clear s) ->
-    restored e s (st_of (snd (run e ev p w s))).
+  forall e ev p w s, good s -> restored e s (st_of (snd (run e ev p w s))).
 Proof. exact run_restores. Qed.
 Print Assumptions C17_nested_blocks_restore.
 
 Theorem C17_nested_blocks_restore_exact :
-  forall e ev p w s,
-    safe false p = true -> good s -> mask_clear s -> nf_consistent e s ->
-    st_of (snd (run e ev p w s)) = s.
+  forall e ev p w s, good s -> nf_consistent e s -> st_of (snd (run e ev p w s)) = s.
 Proof. exact run_restores_exact. Qed.
 Print Assumptions C17_nested_blocks_restore_exact.
 
@@ -63,8 +58,7 @@ Print Assumptions C17_readonly_helpers_restore.
    mask), chain selection, mask_factor flags and configuration *)
 Theorem C17_density_unchanged :
   forall (A : Type) (density : state -> A) e ev p w s,
-    (forall a b, eqm a b -> density a = density b) ->
-    safe false p = true -> good s -> mask_clear s ->
+    (forall a b, eqm a b -> density a = density b) -> good s ->
     density (st_of (snd (run e ev p w s))) = density s.
 Proof. exact run_density_unchanged. Qed.
 Print Assumptions C17_density_unchanged.
@@ -73,7 +67,7 @@ Print Assumptions C17_density_unchanged.
    replace the mask - e.g. a fit inside temp_params): the manager still restores its own component *)
 Theorem C17_temp_params_any_body :
   forall e pdict (body : comp) w s,
-    NoDup (keys (vars s)) -> mask_clear s ->
+    NoDup (keys (vars s)) ->
     (forall w' x, keys (vars (st_of (snd (body w' x)))) = keys (vars x)) ->
     vars (st_of (snd (with_block (blk_enter e (BTempParams pdict)) (blk_exit e (BTempParams pdict)) body w s))) = vars s.
 Proof. exact temp_params_any_body. Qed.
@@ -93,19 +87,6 @@ Theorem C17_mask_params_any_body :
 Proof. exact mask_params_any_body. Qed.
 Print Assumptions C17_mask_params_any_body.
 
-(* FINDING (current /repo tree): the side condition [safe] is needed.  AbsPDF.temp_params saves
-   get_params(), which reads through the mask; inside mask_params (or a factor_iteration loop) the
-   mask values are written into the variables on exit and stay there. *)
-Theorem C17_temp_params_under_mask_refuted :
-  exists e ev p s, good s /\ mask_clear s /\ nf_consistent e s /\
-    vars (st_of (snd (run e ev p (O, []) s))) <> vars s.
-Proof. exact temp_params_under_mask_refuted. Qed.
-Print Assumptions C17_temp_params_under_mask_refuted.
-
-(* full-strength statement that the finding refutes (kept visible) *)
-Definition C17_full_statement : Prop :=
-  forall e ev p w s, good s -> mask_clear s -> restored e s (st_of (snd (run e ev p w s))).
-
 (* ---- why the repairs matter: the pre-fix control flow (separate "old" model) ---- *)
 Theorem C17_old_control_flow_leaks :
   forall e b s s1 sv, blk_enter e b s = Some (s1, sv) -> s1 <> s ->
@@ -119,22 +100,36 @@ Theorem C17_old_vm_temp_params_corrupts :
 Proof. exact old_vm_temp_params_corrupts. Qed.
 Print Assumptions C17_old_vm_temp_params_corrupts.
 
+(* F11 (repaired by feefe02): AbsPDF.temp_params used to save the MASKED view get_params(); entered
+   under mask_params it wrote the mask value into the variable, where it stayed *)
+Example C17_old_temp_params_under_mask_leaks :
+  vars (st_of (snd (with_block (blk_enter ex_env (BMaskParams [(0, (3, 4))])) (blk_exit ex_env (BMaskParams [(0, (3, 4))]))
+                      (old_amp_temp_params [(1, (5, 8))] return_now) (O, []) ex_state)))
+  = [(0, (3, 4)); (1, (3, 5)); (3, (1, 1))].
+Proof. exact old_amp_temp_params_under_mask_leaks. Qed.
+(* the same nestings on the current model *)
+Example C17_temp_params_under_mask_ok :
+  st_of (snd (run ex_env never
+        (PWith (BMaskParams [(0, (3, 4))]) (PWith (BTempParams [(1, (5, 8))]) PEval)) (O, []) ex_state)) = ex_state.
+Proof. exact temp_params_under_mask_ok. Qed.
+Example C17_temp_params_in_factor_iteration_ok :
+  st_of (snd (run ex_env never (PFactorIter (PWith (BTempParams [(1, (5, 8))]) PEval)) (O, []) ex_state)) = ex_state.
+Proof. exact temp_params_in_factor_iteration_ok. Qed.
+
 Theorem C17_old_fitfractions_widens :
   cidx (st_of (snd (old_fitfractions ex_env never [0; 1; 2] [0; 1] 1 (O, []) (set_used_chains ex_env [0; 1] ex_state)))) = [0; 1; 2].
 Proof. exact old_fitfractions_widens. Qed.
 Print Assumptions C17_old_fitfractions_widens.
 
 (* non-vacuity: the hypotheses are satisfiable and the program below really overrides something *)
-Example C17_example_hyps : good ex_state /\ mask_clear ex_state /\ nf_consistent ex_env ex_state.
+Example C17_example_hyps : good ex_state /\ nf_consistent ex_env ex_state.
 Proof.
-  split; [|split].
+  split.
   - unfold good. cbn. split; repeat constructor; cbn; intuition discriminate.
-  - intros k _. reflexivity.
   - reflexivity.
 Qed.
 Example C17_example_run :
   let p := PWith (BTempUsedRes [1] []) (PWith (BTempParams [(1, (5, 8))]) (PSeq PEval (PHelper HInterference))) in
-  safe false p = true /\
   (* exception at the 3rd evaluation: seen states had chains [1], [0;1], [0;2]; state restored *)
   map cidx (rev (snd (fst (run ex_env (fun n _ => Nat.eqb n 2) p (O, []) ex_state)))) = [[1]; [0; 1]; [0; 2]] /\
   run ex_env (fun n _ => Nat.eqb n 2) p (O, []) ex_state = ((3%nat, snd (fst (run ex_env (fun n _ => Nat.eqb n 2) p (O, []) ex_state))), Exn ex_state).
